@@ -3,6 +3,12 @@
 // Exports for the verification harness (/verif). Compiled only with -tags verif.
 package proxycore
 
+import (
+	"io"
+
+	"github.com/datastax/go-cassandra-native-protocol/frame"
+)
+
 // VerifSetLBIndex sets the round-robin counter of a load balancer created by
 // NewRoundRobinLoadBalancer (whatever unsigned width the field has).
 func VerifSetLBIndex(lb LoadBalancer, v uint64) {
@@ -24,3 +30,20 @@ func (v *VerifPending) Store(request Request) int16 { return v.p.store(request) 
 func (v *VerifPending) LoadAndDelete(stream int16) Request { return v.p.loadAndDelete(stream) }
 
 func (v *VerifPending) Closing(err error) { v.p.closing(err) }
+
+// VerifStallWriter queues a sender that blocks the connection's writer goroutine until the
+// returned function is called (a slow socket, made deterministic).
+func VerifStallWriter(c *ClientConn) (release func()) {
+	ch := make(chan struct{})
+	_ = c.conn.Write(SenderFunc(func(_ io.Writer) error {
+		<-ch
+		return nil
+	}))
+	return func() { close(ch) }
+}
+
+// VerifReprepare sends a cached PREPARE frame on the connection exactly as
+// maybePrepareAndExecute does after an UNPREPARED response.
+func VerifReprepare(c *ClientConn, prepare *frame.RawFrame, orig Request) error {
+	return c.Send(&prepareRequest{prepare: prepare, origRequest: orig})
+}
